@@ -625,7 +625,7 @@ def _masked_by_key_matching(ops, i, got, alone):
     if not [r for r in leak_roots(ops, i) if (metas.get(r) or {}).get('key_transform_with_load') or (metas.get(r) or {}).get('v1_key_case')]:
         return False
     used = set(ops[i].get('uses') or [ops[i]['cls']])
-    strict_own = any((metas.get(c) or {}).get('raise_on_unknown_json_key') for c in used)
+    strict_own = any((metas.get(c) or {}).get('raise_on_unknown_json_key') or (metas.get(c) or {}).get('v1_on_unknown_key') == 'RAISE' for c in used)
     fields_n = {_nkey(f) for f in FIELD_NAMES}
     exact, norm = _doc_keys(ops[i].get('doc'), exact=True), _doc_keys(ops[i].get('doc'))
 
